@@ -513,12 +513,12 @@ void shrink(const Plan& p, std::vector<Plan>& out) {
   if (p.get("threads") > 2) { Plan q = p; q.set("threads", p.get("threads") - 1); out.push_back(q); }
 }
 
-const sim::Scenario kA = {"C11", "allocator", "asan", 20000, 300000, generate_a, execute_a, op_name, shrink, nullptr};
-const sim::Scenario kB = {"C11", "runtime", "asan", 8000, 100000, generate_b, execute_b, op_name, shrink, nullptr};
-const sim::Scenario kC = {"C11", "codegen", "asan", 3000, 40000, generate_c, execute_c, op_name, shrink, nullptr};
-const sim::Scenario kAT = {"C11", "allocator-tsan", "tsan", 6000, 80000, generate_a, execute_a, op_name, shrink, nullptr};
-const sim::Scenario kBT = {"C11", "runtime-tsan", "tsan", 2500, 30000, generate_b, execute_b, op_name, shrink, nullptr};
-const sim::Scenario kCT = {"C11", "codegen-tsan", "tsan", 800, 10000, generate_c, execute_c, op_name, shrink, nullptr};
+const sim::Scenario kA = {"C11", "allocator", "asan", 40000, 800000, generate_a, execute_a, op_name, shrink, nullptr};
+const sim::Scenario kB = {"C11", "runtime", "asan", 16000, 300000, generate_b, execute_b, op_name, shrink, nullptr};
+const sim::Scenario kC = {"C11", "codegen", "asan", 6000, 100000, generate_c, execute_c, op_name, shrink, nullptr};
+const sim::Scenario kAT = {"C11", "allocator-tsan", "tsan", 16000, 300000, generate_a, execute_a, op_name, shrink, nullptr};
+const sim::Scenario kBT = {"C11", "runtime-tsan", "tsan", 6000, 100000, generate_b, execute_b, op_name, shrink, nullptr};
+const sim::Scenario kCT = {"C11", "codegen-tsan", "tsan", 2000, 30000, generate_c, execute_c, op_name, shrink, nullptr};
 sim::Registrar r1(kA), r2(kB), r3(kC), r4(kAT), r5(kBT), r6(kCT);
 
 const char* const kAssumptions[] = {
